@@ -259,7 +259,7 @@ func execHistory(o *out, f [][]int) []int {
 		m.Raw = prev[:prevlen:len(prev)]
 	}
 	var obs []int
-	stale := false // after a failed Decode: attribute views of the old message over the new bytes
+	stale := false  // after a failed Decode: attribute views of the old message over the new bytes
 	synced := false // struct and Raw are in step (the states C03 speaks about)
 	// what the current content inherited from a decoded input that the decoder tolerates
 	taintPad, taintTrail := false, false
